@@ -9,10 +9,11 @@ clauses (names as they appear in `margins` / violations)
   L-conservation      |L(s)-L(0)| <= 1e-8 * sum m|r||v| + 2e3*eps*ACC*t*sum|r|            (a)
   reversal-x/-v       restart from (x_N, -v_N) for N steps returns to (x_0, -v_0): 1e-7 A / 1e-8 A/fs  (b)
   order               ||x_dt - x_dt/2|| / ||x_dt/2 - x_dt/4|| in [3, 5.5] at the common end time  (c)
-  energy-std-scaling  std(Ek+Ep) shrinks by [2.8, 5.6] per halving of dt                     (d)
-  energy-residual     dt-independent part B=(4 d(dt/2) - d(dt))/3 of the windowed drift d = mean(last third) -
-                      mean(first third) of Ek+Ep:  |B| <= 0.1 std(dt) + 100*eps*N  (B = R - dt^4 H/4; the
-                      dt^4 term is <= (omega dt)^2/4 <= 0.6 % of the dt^2 scale for dt <= 0.2 fs)           (d)
+  energy-std-scaling  std of E(t)-E(0), E=Ek+Ep, on the common time grid shrinks by [2.8, 5.6] per halving of dt   (d)
+  energy-residual-*   "no drift beyond what dt^2 and the SCF threshold explain": with e(t;dt)=E(t)-E(0) on the common
+                      grid, r(t) = (4 e(t;dt/2) - e(t;dt))/3 is the dt-independent residual (+ O(dt^4)); pointwise
+                      max|r| and windowed drift |mean_last_third r - mean_first_third r| must both be
+                      <= RESID_K*dt^2 * max|e(t;dt)| + 100*eps*N                                              (d)
   Ek-row / T-row      stored Ek(s), T(s) recomputed from /velocities(s) (live constants 1e-12, CODATA 1e-6,
                       n_dof = 3N - {0,3,6} for remove_com None/linear/angular as documented)       (e)
   Ep-sp / F-sp        stored Ep(s), /forces(s) vs an independent cold single point at /coordinates(s):
@@ -37,7 +38,7 @@ RULE = ("case kinds: 'family' = one system (molecule or zero-padded mixed batch,
 ASSUMPTIONS = ["float64 CPU, scf_eps 1e-10 so that SCF noise (<=2e-7 eV/A in forces) is far below every bound",
                "generic orientation (every pair vector >= 5 deg from every Cartesian axis) so that DESIGN row 2 "
                "(frame pole at +-x) is not what is being measured here",
-               "dt <= 0.4 fs: omega_max*dt <= 0.3, asymptotic dt^2 regime; the residual/std clauses use pairs with dt <= 0.2 fs",
+               "dt <= 0.4 fs: omega_max*dt <= 0.3, asymptotic dt^2 regime",
                "velocity-Verlet recurrence clause relies on docs/source/bomd.rst naming the integrator",
                "atomic masses of the shipped table are the property's given"]
 REQUIRED_MONITORS = ["md_runs", "rows_checked", "order_ratios", "energy_ratios", "reversal_pairs", "single_points",
@@ -52,12 +53,13 @@ TOL_REV_X = 1e-7
 TOL_REV_V = 1e-8
 ORDER_LO, ORDER_HI = 3.0, 5.5
 STD_LO, STD_HI = 2.8, 5.6
-RESID_K = 10.0  # allowed residual fraction of the dt^2 scale = RESID_K * dt^2 (dt in fs): 0.4 at 0.2 fs, 0.1 at 0.1 fs, 0.025 at 0.05 fs
+RESID_K = 1.0  # allowed dt-independent residual, as a fraction of the dt^2 energy-error scale: RESID_K*dt^2 (dt in fs);
+# theory (omega_max dt)^2/4 ~ 0.12 dt^2, measured 0.04 dt^2 (H2O, CH2O S1, CH3OH, NH3)
 TOL_ROW_LIVE = 1e-12
 TOL_ROW_REF = 1e-6
 TOL_VV = 1e-6
 TOL_CONST = 1e-6
-ASYMPT_DT = 0.2  # fs; largest dt of a pair used by the energy scaling clauses
+ASYMPT_DT = 0.4  # fs; largest dt of a pair used by the energy scaling clauses
 
 
 # ---------------------------------------------------------------------------------------
